@@ -74,6 +74,12 @@ def smiles_pool(ctx, rt, stereo=False, aromatic=False, n_data=None):
             if r and r not in seen:
                 seen.add(r)
                 out.append(r)
+        if any(c in smi for c in "cn") and any(c.isdigit() for c in smi):
+            for _k in range(2):
+                r = gens.explicit_ring_closure_bond(rng, rng.choice(out[-3:]) if out else smi)
+                if r and r not in seen:
+                    seen.add(r)
+                    out.append(r)
     ctx.distribution["smiles_pool"] = {"seeds": len(base), "spellings": len(out)}
     return out
 
@@ -151,7 +157,9 @@ def roundtrip_judge(ctx, which):
         ctx.distinct.add(smi)
         if which == "C03":
             why = oracles.same_molecule(a, b)
-            if why is None and "@" not in smi and "/" not in smi and "\\" not in smi:
+            if why is None and "@" not in smi and "/" not in smi and "\\" not in smi and not any(x.aromatic for x in a.atoms):
+                # (for aromatic inputs two valid resonance structures may canonicalise differently in RDKit - e.g.
+                # the macrocycle of phthalocyanines - so an RDKit disagreement alone is never reported there)
                 ca, cb = oracles.rdkit_canon(smi), oracles.rdkit_canon(out)
                 if ca is not None and cb is not None and ca != cb:
                     why = "RDKit canonical forms differ although the index-wise comparison agrees"
@@ -469,12 +477,20 @@ def check_C05(ctx, rt):
     pool += [s for s in gens.dataset_smiles(rt.rng, rt.n(20, 400)) if any(c in s for c in "cn")]
     judge = roundtrip_judge(ctx, "C05")
     spell = []
+    explicit_single = []
     try:
         sf.set_semantic_constraints(relaxed(sf))
         for smi in pool:
             if "*" in smi:
                 continue
             variants = [smi] + gens.rdkit_respell(rt.rng, smi, rt.n(6, 40))
+            extra_v = []
+            for v in variants[:6]:
+                for _k in range(3):
+                    r_ = gens.explicit_ring_closure_bond(rt.rng, v)
+                    if r_:
+                        extra_v.append(r_)
+            explicit_single += extra_v
             res = []
             for v in variants:
                 try:
@@ -506,7 +522,7 @@ def check_C05(ctx, rt):
                 pass
             except Exception as e:  # noqa
                 add_violation(ctx, "C05:exception", "kekulization raised " + type(e).__name__, smiles=smi)
-        spell = list(dict.fromkeys(spell))
+        spell = list(dict.fromkeys(spell + explicit_single))
         run_encoder_stream(ctx, rt, "aromatic-enc", spell, "relaxed", relaxed(sf), flags="s", judge=judge)
         ctx.sample({"aromatic": spell[:3]})
         run_parse_stream(ctx, rt, "kekulize-aromatic", spell[::rt.n(2, 1)], kekulize=True)
@@ -753,6 +769,41 @@ def check_C10(ctx, rt):
                     add_violation(ctx, "C10:reencode-differs", "re-encoding does not reproduce the SELFIES string",
                                   smiles=smi[:200], first=s1[:300], second=s2[:300], table=tname)
         ctx.sample({"smiles": "[Fe++]", "symbol": sf.encoder("[Fe++]")})
+        # the chain after a history of other calls under other tables: symbols that are illegal under a tight table
+        # are first offered to the decoder there, then the table is loosened and the chain must still work
+        hrich = ["[NH4]", "[NH3]", "[OH3]", "[OH2]", "[CH5]", "[CH4]", "[ClH2]", "[SH5]", "[SH3]", "[PH4]", "[BH4]", "[FH2]",
+                 "[SiH5]", "[NH4+1]", "[OH3+1]", "[IH2]"]
+        tight = {"C": 2, "N": 1, "O": 1, "S": 2, "P": 3, "Cl": 1, "F": 1, "B": 2, "I": 1, "?": 2}
+        seqs = [[("tight", tight), ("hypervalent", sf.get_preset_constraints("hypervalent")), ("relaxed", relaxed(sf))],
+                [("octet_rule", sf.get_preset_constraints("octet_rule")), ("default", sf.get_preset_constraints("default")),
+                 ("relaxed", relaxed(sf)), ("tight", tight), ("relaxed", relaxed(sf))]]
+        for seq in seqs:
+            for tname, tab in seq:
+                sf.set_semantic_constraints(dict(tab))
+                for sym in hrich:
+                    for ctxs in (sym, "[C]" + sym, sym + "[C]"):
+                        try:
+                            sf.decoder(ctxs)
+                        except Exception:
+                            pass
+                for sym in hrich:
+                    for smi in (sym, "C" + sym, "F" + sym, sym + "C"):
+                        ctx.evaluations += 1
+                        try:
+                            s1 = sf.encoder(smi)
+                        except Exception:
+                            continue
+                        try:
+                            out = sf.decoder(s1)
+                            s2 = sf.encoder(out)
+                        except Exception as e:  # noqa
+                            add_violation(ctx, "C10:undecodable-after-history", "after decoding under other tables, the decoder / re-encoder "
+                                          "raises on encoder output: " + type(e).__name__, smiles=smi, selfies=s1, table=tname,
+                                          history=[t[0] for t in seq])
+                            continue
+                        if s2 != s1:
+                            add_violation(ctx, "C10:reencode-differs-after-history", "re-encoding differs after a table history",
+                                          smiles=smi, first=s1, second=s2, table=tname)
     finally:
         restore_default()
 
